@@ -1236,6 +1236,15 @@ NAMES = ["a", "b", "w", "score", "label", "flag", "p0", "vec", "名", " ", "a.b"
 
 
 def rand_ids(rng, n, big=True):
+    # structured id sets: exactly {0..n-1} or a contiguous range, stored in a shuffled (or the sorted) order -- the layouts for which an
+    # "ids are the identity / a dense range" shortcut in a backend is tempting and wrong when the stored order is not the sorted one
+    r = rng.random()
+    if n >= 2 and r < 0.3:
+        base = 0 if r < 0.2 else rng.choice([1, 5, 2**32 - 1] if big else [1, 5])
+        ids = [base + i for i in range(n)]
+        if r >= 0.05:
+            rng.shuffle(ids)
+        return ids
     ids = []
     while len(ids) < n:
         v = rng.choice(ID_POOL) if big and rng.random() < 0.6 else rng.randint(0, 30)
